@@ -356,8 +356,7 @@ func (p *parser) postfix(node string) string {
 			name := p.cur()
 			p.next()
 			if name.Kind != lexer.Identifier && (name.Kind != lexer.Operator || !validIdent(name.Value)) {
-				p.pos-- // report at the offending token
-				p.fail("expected name")
+				p.fail("expected name") // like the parser: reported at the token after the name position
 			}
 			ns := ""
 			if nilsafe {
